@@ -5,7 +5,7 @@
     * class attributes `pre_processors` / `post_processors` (lists in the class `__dict__`),
     * `Unit.__init_subclass__` (fresh empty lists for every class whose `__init_subclass__` chain reaches it),
     * `_yield_pre_processors` / `_yield_post_processors` (`walk`: `getattr` on every class of the reversed MRO),
-    * `init_solve` (pre-processor chain, `InProfile`/`OutProfile` copies) and `solve`
+    * `init_solve` (pre-processor chain, `InProfile`/`OutProfile` copies, refresh of a re-used out profile) and `solve`
       (own solution, public copy of `out_profile`, post-processor chain, returned profile).
 
   Part 1 (`Hier`) is the class side: classes are natural numbers (definition order), the python `__mro__`
@@ -128,7 +128,7 @@ inductive COp where
   | register (w : Bool) (c f : Nat)
   | unregister (w : Bool) (c f : Nat)
   | clear (w : Bool) (c : Nat)
-  deriving Repr
+  deriving Repr, DecidableEq
 
 def step (H : Hier) : COp → Hier × Out
   | .defClass tail isub body => (defClass H tail isub body, .cls H.n)
@@ -206,13 +206,16 @@ def chain (E : Env) (w : Bool) (u : Nat) : List Nat → Heap → Nat → Heap ×
       (h', r, .consult w f u :: .proc w p cur r1 :: evs)
 
 /-- `init_solve`: pre-processor chain, then `self.in_profile = InProfile(self, profile)` (a copy) and
-`if not self.out_profile: self.out_profile = OutProfile(self, profile)` (a copy, kept on later solves) -/
+`if not self.out_profile: self.out_profile = OutProfile(self, profile)` (a copy) `else:` the EXISTING out profile
+object is re-used and brought up to date with the last pre-processor output: its public entries that are no root
+hooks (the marks are such entries) are those of `profile` (outdated ones deleted, the handed-over ones set), the
+root hook results of the previous solve stay as start values -/
 def initSolve (E : Env) (st : RState) (u inp : Nat) : RState × List Ev :=
   let (h1, cur, evs) := chain E true u (walk E.H true (E.ucls u)) st.heap inp
   let (h2, ip) := h1.alloc (h1.marks cur)
   match st.uout u with
-  | some _ =>
-    ({ st with heap := h2, uin := fun x => if x = u then some ip else st.uin x }, evs)
+  | some op =>
+    ({ st with heap := h2.setMarks op (h2.marks cur), uin := fun x => if x = u then some ip else st.uin x }, evs)
   | none =>
     let (h3, op) := h2.alloc (h2.marks cur)
     ({ heap := h3, uin := fun x => if x = u then some ip else st.uin x,
